@@ -29,10 +29,15 @@ fn client_datagram(seq: u32, len: usize) -> Vec<u8> {
 
 /// C01: every client datagram reaches the receiver unchanged, in per-link order.
 pub fn phase_uplink(e: &E2e, first_seq: u32, n: u32, len: usize) -> CheckResult {
+    phase_uplink_lens(e, first_seq, n, &[len])
+}
+
+/// Same, with datagram lengths cycling through `lens` (up to the MTU the listener must accept whole).
+pub fn phase_uplink_lens(e: &E2e, first_seq: u32, n: u32, lens: &[usize]) -> CheckResult {
     let before = e.log.lock().unwrap().data.len();
     let mut sent = Vec::new();
     for k in 0..n {
-        let d = client_datagram(first_seq + k, len);
+        let d = client_datagram(first_seq + k, lens[k as usize % lens.len()]);
         e.client_send(&d);
         sent.push(d);
         if k % 25 == 24 {
@@ -47,6 +52,12 @@ pub fn phase_uplink(e: &E2e, first_seq: u32, n: u32, len: usize) -> CheckResult 
     let lg = e.log.lock().unwrap();
     let got = &lg.data[before..];
     if !ok {
+        // a datagram that arrived with the right number but other bytes / another length was modified, not lost
+        for sd in sent.iter().filter(|s| !got.iter().any(|g| &g.1 == *s)) {
+            if let Some(g) = got.iter().find(|g| g.1.len() >= 20 && g.1[0] & 0x80 == 0 && g.1[16..20] == sd[16..20]) {
+                return viol("e2e-datagram-corrupted", format!("real event loop: client datagram seq {} of {} bytes arrived as {} bytes{} on link {}", u32::from_be_bytes([sd[16], sd[17], sd[18], sd[19]]), sd.len(), g.1.len(), if sd.starts_with(&g.1) { " (truncated)" } else { "" }, g.0));
+            }
+        }
         let missing: Vec<u32> = sent.iter().filter(|s| !got.iter().any(|g| &g.1 == *s)).map(|s| u32::from_be_bytes([s[16], s[17], s[18], s[19]])).take(8).collect();
         return viol("e2e-datagram-lost", format!("real event loop: {} of {} client datagrams never reached the receiver within 8 s (first missing seqs {:?})", sent.iter().filter(|s| !got.iter().any(|g| &g.1 == *s)).count(), want, missing));
     }
@@ -78,12 +89,16 @@ pub fn phase_uplink(e: &E2e, first_seq: u32, n: u32, len: usize) -> CheckResult 
 
 /// C09: a burst of receiver traffic (more than one drain pass) reaches the client unchanged; internal types do not.
 pub fn phase_relay(e: &E2e, a: u8, n: u32) -> CheckResult {
+    phase_relay_window(e, a, n, 0x7a00_0000, 6000)
+}
+
+fn phase_relay_window(e: &E2e, a: u8, n: u32, tag: u32, wait_ms: u64) -> CheckResult {
     let _ = e.client_drain(50, |_| false);
     let mut expected = Vec::new();
     for k in 0..n {
         let internal = k % 9 == 4;
         let mut d = if internal { vec![0x91, 0x00, 0, 0] } else if k % 2 == 0 { vec![0x80, 0x07, 0, 0] } else { vec![0x80, 0x02, 0, 0] };
-        d.extend_from_slice(&(0x7a00_0000u32 + k).to_be_bytes());
+        d.extend_from_slice(&(tag + k).to_be_bytes());
         d.extend_from_slice(&[0u8; 16]);
         d.extend_from_slice(&k.to_be_bytes());
         if !internal {
@@ -92,13 +107,23 @@ pub fn phase_relay(e: &E2e, a: u8, n: u32) -> CheckResult {
         vensure!(e.rx_send(a, &d), "e2e-harness", "no address known for link {a}");
     }
     let exp2 = expected.clone();
-    let got = e.client_drain(6000, move |out| exp2.iter().all(|x| out.contains(x)));
+    let got = e.client_drain(wait_ms, move |out| exp2.iter().all(|x| out.contains(x)));
     let missing = expected.iter().filter(|x| !got.contains(x)).count();
-    vensure!(missing == 0, "e2e-relay-lost", "real event loop: {missing} of {} receiver datagrams sent in one burst never reached the SRT client within 6 s", expected.len());
+    vensure!(missing == 0, "e2e-relay-lost", "real event loop: {missing} of {} receiver datagrams sent in one burst never reached the SRT client within {wait_ms} ms", expected.len());
     for g in &got {
         vensure!(rc::packet_type(g) != Some(rc::T_SRTLA_ACK) && rc::packet_type(g) != Some(rc::T_KEEPALIVE), "e2e-internal-relayed", "real event loop: an SRTLA-internal datagram reached the client");
     }
     Ok(())
+}
+
+/// C09: the same burst on a link that is otherwise silent (the receiver stops answering it just before), so that
+/// nothing but the burst itself wakes the uplink's reader; every datagram must still come through.
+pub fn phase_relay_quiet(e: &E2e, a: u8, n: u32) -> CheckResult {
+    e.policy.lock().unwrap().muted.insert(a);
+    std::thread::sleep(Duration::from_millis(60));
+    let r = phase_relay_window(e, a, n, 0x7b00_0000, 3000);
+    e.policy.lock().unwrap().muted.remove(&a);
+    r.map_err(|v| Violation { sig: v.sig, msg: format!("{} (link otherwise silent)", v.msg) })
 }
 
 /// C14: keepalives keep flowing on every live link (gap <= 2 housekeeping periods + slack).
@@ -299,6 +324,9 @@ pub fn phase_recovery(e: &E2e, addrs: &[u8], timeout_ms: u64, focus: u8) -> Chec
     };
     let mute_for = timeout_ms + 7500;
     let before = e.log.lock().unwrap().data.len();
+    let old_addr = e.log.lock().unwrap().addr_of.get(&victim).copied();
+    let fds_before = std::fs::read_dir("/proc/self/fd").map(|d| d.count()).unwrap_or(0);
+    let mut forged_at: Option<(u64, u64)> = None; // (arrival number, ms) when a REG3 was sent to the replaced socket
     let mut sent = Vec::new();
     let mut seq = 20_000u32;
     while e.ms() < t_mute + mute_for {
@@ -309,6 +337,19 @@ pub fn phase_recovery(e: &E2e, addrs: &[u8], timeout_ms: u64, focus: u8) -> Chec
             seq += 1;
         }
         std::thread::sleep(Duration::from_millis(50));
+        // once the link has re-opened its socket (first re-registration frame from a new port), a late REG3
+        // addressed to the replaced socket must fall on deaf ears
+        if forged_at.is_none()
+            && let Some(old) = old_addr
+        {
+            let lg = e.log.lock().unwrap();
+            if let Some(o) = lg.order.iter().find(|o| o.0 > n_mute && o.1 == victim && (o.3 == 2 || o.3 == 3) && o.2 != old.port()) {
+                let mark = (lg.order.last().map_or(o.0, |l| l.0), e.ms());
+                drop(lg);
+                let _ = e.rx_sock.send_to(&[0x92, 0x02], old);
+                forged_at = Some(mark);
+            }
+        }
     }
     let _ = e.wait_until(Duration::from_secs(6), |lg| {
         let got: std::collections::BTreeSet<&Vec<u8>> = lg.data[before..].iter().map(|d| &d.1).collect();
@@ -335,6 +376,15 @@ pub fn phase_recovery(e: &E2e, addrs: &[u8], timeout_ms: u64, focus: u8) -> Chec
             vensure!(first + 400 >= t_mute + timeout_ms, "e2e-early-teardown", "real event loop: link {victim} re-registered {} ms after it was last heard, timeout {timeout_ms} ms", first.saturating_sub(t_mute));
             for w in attempts.windows(2) {
                 vensure!(w[1].4 + 300 >= w[0].4 + 5000, "e2e-retry-too-soon", "real event loop: link {victim} reconnect attempts {} ms apart (< 5000)", w[1].4 - w[0].4);
+            }
+            if let Some((mark, at)) = forged_at {
+                // the receiver never answered the re-opened socket, so the link is still registering: no keepalives
+                if let Some(k) = lg.order.iter().find(|o| o.0 > mark && o.1 == victim && o.3 == 1) {
+                    return viol(
+                        "e2e-replaced-socket-still-heard",
+                        format!("real event loop: link {victim} sent a keepalive {} ms after a REG3 was delivered to the socket it had already replaced (at {at} ms); it was never answered on its current socket", k.4.saturating_sub(at)),
+                    );
+                }
             }
             // healthy links are never torn down
             for o in lg.order.iter().filter(|o| o.0 > n_mute && o.1 != victim && (o.3 == 2 || o.3 == 3)) {
@@ -365,11 +415,69 @@ pub fn phase_recovery(e: &E2e, addrs: &[u8], timeout_ms: u64, focus: u8) -> Chec
             }
         }
     }
-    phase_uplink(e, 60_000, 300, 300)
+    phase_uplink(e, 60_000, 300, 300)?;
+    if focus == 8 {
+        // every retry re-opens the socket; "retried forever" needs the replaced one to be released
+        let fds_after = std::fs::read_dir("/proc/self/fd").map(|d| d.count()).unwrap_or(0);
+        let attempts = e.log.lock().unwrap().order.iter().filter(|o| o.0 > n_mute && o.1 == victim && (o.3 == 2 || o.3 == 3)).count();
+        if std::env::var_os("VERIF_E2E_TRACE").is_some() {
+            eprintln!("recovery: fds {fds_before} -> {fds_after}, attempts {attempts}, forged {:?}", forged_at);
+        }
+        vensure!(attempts < 2 || fds_after < fds_before + attempts, "e2e-socket-leak-per-retry", "real event loop: {attempts} reconnect attempts left {} more open file descriptors than before the outage ({fds_before} -> {fds_after})", fds_after.saturating_sub(fds_before));
+    }
+    Ok(())
+}
+
+/// C06: classic mode never applies time-based window recovery - also after a *runtime* switch to classic.
+/// No stream data flows, so nothing but the housekeeping tick can move a window; the windows are read from
+/// the telemetry of the keepalives the sender puts on the wire.
+pub fn phase_mode_ticks(e: &E2e, addrs: &[u8], start_classic: bool) -> CheckResult {
+    let windows_since = |t: u64| -> std::collections::BTreeMap<u8, Vec<(u64, i32)>> {
+        let lg = e.log.lock().unwrap();
+        let mut m: std::collections::BTreeMap<u8, Vec<(u64, i32)>> = Default::default();
+        for (k, f) in lg.keepalives.iter().zip(lg.keepalive_frames.iter()) {
+            if k.1 >= t && let Some(info) = rc::keepalive_info(f) {
+                m.entry(k.0).or_default().push((k.1, info.window));
+            }
+        }
+        m
+    };
+    let constant = |label: &str, t: u64| -> CheckResult {
+        let w = windows_since(t);
+        for a in addrs {
+            let v = w.get(a).cloned().unwrap_or_default();
+            vensure!(v.len() >= 2, "e2e-harness", "fewer than two keepalives from link {a} in the watch window ({label}); covered by the keepalive phase");
+            for p in v.windows(2) {
+                vensure!(p[1].1 == p[0].1, "e2e-classic-time-recovery", "real event loop, {label}: idle link {a} in classic mode moved its window {} -> {} between two housekeeping ticks ({} ms apart)", p[0].1, p[1].1, p[1].0 - p[0].0);
+            }
+        }
+        Ok(())
+    };
+    let set_mode = |classic: bool| {
+        let _ = dispatch(&e.config, Some(&e.stats), Some(&e.cw), &format!(r#"{{"jsonrpc":"2.0","id":1,"method":"set_mode","params":{{"mode":"{}"}}}}"#, if classic { "classic" } else { "enhanced" }));
+    };
+    let t0 = e.ms();
+    std::thread::sleep(Duration::from_millis(3600));
+    if start_classic {
+        constant("started in classic mode", t0)?;
+    }
+    // switch at run time; the first tick after the switch must already honour it
+    let mut now_classic = !start_classic;
+    for round in 0..2 {
+        set_mode(now_classic);
+        let ts = e.ms();
+        std::thread::sleep(Duration::from_millis(1300 + 3600));
+        if now_classic {
+            constant(if round == 0 { "after a runtime switch enhanced -> classic" } else { "after switching classic -> enhanced -> classic" }, ts + 1300)?;
+        }
+        now_classic = !now_classic;
+    }
+    Ok(())
 }
 
 #[derive(Clone, Copy, PartialEq, Eq, Debug)]
 pub enum Phase {
+    ModeTicks,
     Recovery,
     RecoveryEligibility,
     Uplink,
@@ -427,7 +535,8 @@ pub fn run(ctx: &Ctx, phase: Phase, scenarios: usize) {
         let n_links = 2 + (z % 3) as usize;
         let base = ((z >> 8) % 20) as u8;
         let addrs: Vec<u8> = (0..n_links as u8).map(|i| base + i).collect();
-        let classic = (z >> 16) & 1 == 1;
+        // the mode-switch phase alternates its starting mode (an enhanced start exercises enhanced -> classic first)
+        let classic = if phase == Phase::ModeTicks { k % 2 == 1 } else { (z >> 16) & 1 == 1 };
         // one attempt of the scenario; None = could not start (inconclusive)
         let attempt = |notes: &mut Vec<String>| -> Option<CheckResult> {
             let probe = LagProbe::start();
@@ -439,9 +548,9 @@ pub fn run(ctx: &Ctx, phase: Phase, scenarios: usize) {
                 return None;
             };
             let r: CheckResult = match phase {
-                Phase::Uplink => phase_uplink(&e, 1000, 1500 + (z % 1500) as u32, [188usize, 1316, 24, 700][(z >> 20) as usize % 4]).and_then(|_| phase_uplink(&e, 10_000, 600, 1316)),
+                Phase::Uplink => phase_uplink(&e, 1000, 1500 + (z % 1500) as u32, [188usize, 1316, 24, 700][(z >> 20) as usize % 4]).and_then(|_| phase_uplink_lens(&e, 10_000, 600, &[1316, 24, 1500, 1473, 1472, 1499, 188, 20])),
                 // the client address becomes known with the first client datagram
-                Phase::Relay => phase_uplink(&e, 1000, 60, 300).and_then(|_| phase_relay(&e, addrs[0], 150 + (z % 200) as u32)).and_then(|_| phase_relay(&e, addrs[n_links - 1], 70)),
+                Phase::Relay => phase_uplink(&e, 1000, 60, 300).and_then(|_| phase_relay(&e, addrs[0], 150 + (z % 200) as u32)).and_then(|_| phase_relay(&e, addrs[n_links - 1], 70)).and_then(|_| phase_relay_quiet(&e, addrs[n_links - 1], 100 + (z % 150) as u32)),
                 Phase::Keepalive => phase_keepalive(&e, &addrs, 5500),
                 Phase::Reload => {
                     let keep: Vec<u8> = addrs[..n_links - 1].to_vec();
@@ -464,6 +573,7 @@ pub fn run(ctx: &Ctx, phase: Phase, scenarios: usize) {
                     phase_control(&e, &lines)
                 }
                 Phase::Subscription => phase_subscription(&e, &addrs),
+                Phase::ModeTicks => phase_mode_ticks(&e, &addrs, classic),
                 Phase::Recovery => phase_recovery(&e, &addrs, recovery_timeout, 8),
                 Phase::RecoveryEligibility => phase_recovery(&e, &addrs, recovery_timeout, 4),
             };
